@@ -145,8 +145,9 @@ pub fn gen(seed: u64, idx: u64, _tier: Tier) -> Case {
         ops.push(Op::HFlush { h: 2 });
         // other streams take over released sectors, the big one is cut back once more, and yet
         // another stream reuses what that released: nobody's verified bytes may change
+        let len_r = rng.range(12_000, 20_000) as usize;
         ops.push(Op::HCreate { h: 1, path: "/r".into() });
-        ops.push(Op::HWriteAll { h: 1, len: rng.range(12_000, 20_000) as usize, nonce: 98 });
+        ops.push(Op::HWriteAll { h: 1, len: len_r, nonce: 98 });
         ops.push(Op::HFlush { h: 1 });
         ops.push(Op::HDrop { h: 1 });
         ops.push(Op::HDrop { h: 0 });
@@ -157,6 +158,15 @@ pub fn gen(seed: u64, idx: u64, _tier: Tier) -> Case {
         ops.push(Op::HWriteAll { h: 1, len: rng.range(12_000, 20_000) as usize, nonce: 99 });
         ops.push(Op::HFlush { h: 1 });
         ops.push(Op::HDrop { h: 1 });
+        // a regular stream is removed and two new ones together take more sectors than it
+        // released (so that every released sector is handed out again)
+        ops.push(Op::RemoveStream("/r".into()));
+        for (i, name) in ["/u", "/w"].iter().enumerate() {
+            ops.push(Op::HCreate { h: 1, path: name.to_string() });
+            ops.push(Op::HWriteAll { h: 1, len: len_r, nonce: 100 + i as u32 });
+            ops.push(Op::HFlush { h: 1 });
+            ops.push(Op::HDrop { h: 1 });
+        }
         ops.push(Op::FlushFile);
         c.ops = ops;
         c.params.insert("torn_seed".into(), (rng.next_u64() >> 2) as i64);
@@ -462,6 +472,11 @@ fn execute(case: &Case, plan: &[Fault], heal_after_first_failure: bool) -> RunOu
                     if is_err {
                         tainted.insert(path.clone());
                         known.remove(path);
+                    } else if matches!(got, Res::Unit) && tries > 1 {
+                        // the retry went through: create_stream replaced whatever the failed
+                        // attempt had left, the content is the freshly written one
+                        tainted.remove(path);
+                        known.insert(path.clone(), crate::prng::pattern(*nonce, 0, *len as usize));
                     } else if matches!(got, Res::Unit) && !tainted.contains(path) {
                         known.insert(path.clone(), crate::prng::pattern(*nonce, 0, *len as usize));
                     }
@@ -470,6 +485,9 @@ fn execute(case: &Case, plan: &[Fault], heal_after_first_failure: bool) -> RunOu
                     known.remove(path);
                     if is_err {
                         tainted.insert(path.clone());
+                    } else if matches!(got, Res::Unit) && tries > 1 && matches!(op, Op::RemoveStream(_)) {
+                        // the retried removal went through: the object is gone
+                        tainted.remove(path);
                     }
                 }
                 Op::HFlush { h } => {
